@@ -25,7 +25,8 @@ type UpFile struct {
 	// control file written before the last rebuild); 0 = the real size
 	Listed int `json:"listed,omitempty"`
 	// Link: the listed name is a symbolic link in the source directory to the real file in
-	// src/sub/ (1 = relative target, 2 = absolute target) - a shared .orig.tar.gz, say
+	// src/sub/ (1 = relative target, 2 = absolute target) - a shared .orig.tar.gz, say -, or (3) an
+	// absolute link to the same-named file that already lives in d1 (an upload directory linked into the pool)
 	Link int `json:"link,omitempty"`
 }
 
@@ -145,7 +146,7 @@ func genUploadCase(t *rapid.T) UploadCase {
 			uf.Listed = uf.Size + rapid.SampledFrom([]int{1, 100, 4096}).Draw(t, "sizelieBy")
 		}
 		if plainName(name) && rapid.IntRange(0, 7).Draw(t, "srcLink") == 0 {
-			uf.Link = rapid.IntRange(1, 2).Draw(t, "srcLinkKind")
+			uf.Link = rapid.IntRange(1, 3).Draw(t, "srcLinkKind")
 		}
 		c.Files = append(c.Files, uf)
 	}
@@ -383,6 +384,16 @@ func checkUploadCase(c UploadCase, r *Recorder) error {
 		p := filepath.Join(root, "src", f.Name)
 		if rel, err := filepath.Rel(filepath.Join(root, "src"), p); err == nil && !strings.HasPrefix(rel, "..") && rel != "." {
 			os.MkdirAll(filepath.Dir(p), 0o755)
+			if f.Link == 3 && plainName(f.Name) {
+				// the pool layout: the real file already lives in d1, the upload directory holds an
+				// absolute link to it
+				pool := filepath.Join(root, "d1", f.Name)
+				os.MkdirAll(filepath.Join(root, "d1"), 0o755)
+				os.WriteFile(pool, upContent(f), 0o644)
+				os.Symlink(pool, p)
+				r.Count("source-symlink-into-a-destination", 1)
+				continue
+			}
 			if f.Link != 0 && plainName(f.Name) {
 				real := filepath.Join(root, "src", "sub", fmt.Sprintf("real-%d", fi)) // (a short name: the listed one may be 255 bytes long)
 				os.WriteFile(real, upContent(f), 0o644)
@@ -420,6 +431,14 @@ func checkUploadCase(c UploadCase, r *Recorder) error {
 				}
 			}
 			os.WriteFile(filepath.Join(root, dd, c.ctlName()), bytes.Repeat([]byte{'S'}, len(ctlText)), 0o644)
+		}
+	}
+
+	for _, f := range c.Files {
+		if f.Link == 3 && plainName(f.Name) && f.Name != c.ctlName() {
+			if fi, err := os.Lstat(filepath.Join(root, "src", f.Name)); err == nil && fi.Mode()&os.ModeSymlink != 0 {
+				os.WriteFile(filepath.Join(root, "d1", f.Name), upContent(f), 0o644) // (over a leftover, if any)
+			}
 		}
 	}
 
@@ -520,6 +539,9 @@ func checkUploadCase(c UploadCase, r *Recorder) error {
 				fault = "none" // faults are planted on plain names only, and on files the library has reason to touch
 			}
 		}
+		if fault == "dst-squatted" && op.Dest == "d1" && c.FaultStep < len(c.Files) && c.Files[c.FaultStep].Link == 3 {
+			fault = "none" // the listed file is a link to this very place: squatting on it would replace the source, not block the destination
+		}
 		if (fault == "src-is-dir" || fault == "src-is-empty-dir") && op.Kind == "move" && c.FaultStep >= len(c.Files) {
 			fault = "none" // the control file's own path turned into a directory after parsing: renaming it is what was asked for
 		}
@@ -552,7 +574,13 @@ func checkUploadCase(c UploadCase, r *Recorder) error {
 			if c.DstLink-1 < len(c.Files) {
 				ln = c.Files[c.DstLink-1].Name
 			}
-			if plainName(ln) && !(fault == "dst-squatted" && ln == stepName) {
+			poolLinked := false
+			for _, f := range c.Files {
+				if f.Name == ln && f.Link == 3 {
+					poolLinked = true // the source is a link to this very place: a link planted here would be the source
+				}
+			}
+			if plainName(ln) && !poolLinked && !(fault == "dst-squatted" && ln == stepName) {
 				os.RemoveAll(filepath.Join(dstDir, ln))
 				if os.Symlink(filepath.Join(root, "outside", "victim"), filepath.Join(dstDir, ln)) == nil {
 					r.Count("destination-symlink-planted", 1)
@@ -756,7 +784,7 @@ func upNames(fs []UpFile) []string {
 
 var specC20 = Register(&Spec[UploadCase]{
 	Prop: "C20", Name: "upload",
-	Rule:  "histories of 1..3 operations (Copy/Move into d1|d2, Remove) on one .dsc or .changes handle over a fresh scratch tree root/{src,src/sub,d1,d2,outside}; 0..5 referenced files (sizes 0, 1, 7, 300, 32767..32769, 100000; one plain name in twenty is 200..255 bytes long; one file in ten is listed with a size that is not its real one - the hashes are made up anyway, nothing in the statement makes Copy/Move verify either); a quarter of the uploads list adversarial names ('../outside/victim', '../d1/planted', 'sub/x', absolute, '..', '.', '/', '//', '../', 'sub/../../outside/victim') and/or carry a literal 'Filename:' field pointing elsewhere, and a third of those have no Files field at all (Checksums-Sha256 only) or list the adversarial names in Checksums-Sha256 only; in a quarter of the cases both destinations already hold same-named files of the same length with other bytes (leftovers of an earlier upload); in a fifth of the cases d2 is on another file system (/dev/shm, when there is one), where a Move may fail as a whole but must not half-succeed; in a sixth of the cases the destination of the last operation holds a planted symbolic link to root/outside/victim under the name of a referenced file or of the control file; one listed file in eight is a symbolic link in the source directory to the real file in src/sub (relative or absolute target); one destination in six is named as <symlink>/.. with the link leading to a directory inside the destination, and same-named files are planted one level above (where a path cleaned as text would land); one upload in ten lists a name twice (Move / Remove may then fail at the second occurrence - with the control file untouched); in a third of the .changes cases a listed .dsc is a real one whose own Files field names ../outside/victim and sub/inner (nobody asked for the files a listed file lists); in an eighth the control file lists itself (refusing is fine, but then nothing may have moved and the control file is not in the destination); in a quarter (half of the self-listing ones) the handle comes from ParseDsc / ParseChanges(reader, path) with the path spelled src/./x.dsc, src/../src/x.dsc or //src/x.dsc, or from Parse*File of ../x.dsc called in a working directory that was entered through a symbolic link ($PWD logical); an operation whose destination is the directory the upload already lives in (also spelled d1/../src/.) must leave that directory bit-identical whatever it returns; the last operation optionally runs with ONE planted fault at step i in {file 0..n-1, control file}: source deleted, source replaced by a non-empty directory, a non-empty directory squatting on the destination name, destination directory missing or a regular file. Oracle: success (plain names, no fault) => all files and the control file byte-identical in the destination (Move: gone from source; Remove: gone), handle.Filename == dest/base; fault => an error, no regular control file in the destination, for Move/Remove the control file intact at its source; always => root/outside bit-identical, no destination file carries outside content, d1/planted untouched when d1 is not involved. Non-trivial: >= 2 files with a fault at step >= 1, or non-plain names; distinct by case.",
+	Rule:  "histories of 1..3 operations (Copy/Move into d1|d2, Remove) on one .dsc or .changes handle over a fresh scratch tree root/{src,src/sub,d1,d2,outside}; 0..5 referenced files (sizes 0, 1, 7, 300, 32767..32769, 100000; one plain name in twenty is 200..255 bytes long; one file in ten is listed with a size that is not its real one - the hashes are made up anyway, nothing in the statement makes Copy/Move verify either); a quarter of the uploads list adversarial names ('../outside/victim', '../d1/planted', 'sub/x', absolute, '..', '.', '/', '//', '../', 'sub/../../outside/victim') and/or carry a literal 'Filename:' field pointing elsewhere, and a third of those have no Files field at all (Checksums-Sha256 only) or list the adversarial names in Checksums-Sha256 only; in a quarter of the cases both destinations already hold same-named files of the same length with other bytes (leftovers of an earlier upload); in a fifth of the cases d2 is on another file system (/dev/shm, when there is one), where a Move may fail as a whole but must not half-succeed; in a sixth of the cases the destination of the last operation holds a planted symbolic link to root/outside/victim under the name of a referenced file or of the control file; one listed file in eight is a symbolic link in the source directory to the real file in src/sub (relative or absolute target) or an absolute link to the same-named file that already lives in d1; one destination in six is named as <symlink>/.. with the link leading to a directory inside the destination, and same-named files are planted one level above (where a path cleaned as text would land); one upload in ten lists a name twice (Move / Remove may then fail at the second occurrence - with the control file untouched); in a third of the .changes cases a listed .dsc is a real one whose own Files field names ../outside/victim and sub/inner (nobody asked for the files a listed file lists); in an eighth the control file lists itself (refusing is fine, but then nothing may have moved and the control file is not in the destination); in a quarter (half of the self-listing ones) the handle comes from ParseDsc / ParseChanges(reader, path) with the path spelled src/./x.dsc, src/../src/x.dsc or //src/x.dsc, or from Parse*File of ../x.dsc called in a working directory that was entered through a symbolic link ($PWD logical); an operation whose destination is the directory the upload already lives in (also spelled d1/../src/.) must leave that directory bit-identical whatever it returns; the last operation optionally runs with ONE planted fault at step i in {file 0..n-1, control file}: source deleted, source replaced by a non-empty directory, a non-empty directory squatting on the destination name, destination directory missing or a regular file. Oracle: success (plain names, no fault) => all files and the control file byte-identical in the destination (Move: gone from source; Remove: gone), handle.Filename == dest/base; fault => an error, no regular control file in the destination, for Move/Remove the control file intact at its source; always => root/outside bit-identical, no destination file carries outside content, d1/planted untouched when d1 is not involved. Non-trivial: >= 2 files with a fault at step >= 1, or non-plain names; distinct by case.",
 	Check: checkUploadCase,
 })
 
